@@ -64,9 +64,10 @@ func writeEntry(t *Table, entry kv.Entry) {
 		t.startKey = entry.Key()
 		t.startSeqNum = entry.SeqNum()
 	}
-	// Set ending entry values
+	// Set ending entry values. Entries arrive in key order, not in write order:
+	// the end sequence number is the highest one seen, not the last one.
 	t.endKey = entry.Key()
-	t.endSeqNum = entry.SeqNum()
+	t.endSeqNum = max(t.endSeqNum, entry.SeqNum())
 
 	// Add to metadata
 	t.searchIndex.IndexOffset(t.size)
